@@ -19,7 +19,7 @@ RULE = (
     "accepted, and then ONE ill-posing edit from the listed classes is applied: unknown axis (replacing or added), data "
     "without / with two dimensions of the axis, `to` = same position / a position the axis lacks / an unknown word, unknown "
     "boundary word (scalar, for the operated axis, for another axis), non-numeric fill value (strings incl. numeric-looking ones such as '1', 'nan', '1e3', bytes, object(); scalar or in a "
-    "mapping), an unknown position word in a grid-ufunc signature (input, output or appended argument), transform along a periodic axis, non-monotonic or repeated conservative bins, conservative transform "
+    "mapping), an unknown position word in a grid-ufunc signature (input, output or appended argument), transform along a periodic axis, non-monotonic or repeated conservative bins (float64, float32, int64, uint8, uint16), an unknown position word in the Grid's default_shifts with `to` left out, a ufunc input carrying two dimensions of one axis, conservative transform "
     "without outer, each ufunc input in turn on a wrong position, wrong number of inputs, wrong number / arity of axis "
     "entries. Every edit is tagged consulted / unconsulted (e.g. a bogus word for a shift that needs no padding). Oracle: "
     "no array may come back - any exception type is acceptance. Class = (corpus, edit, consulted, operator/shift "
@@ -30,10 +30,10 @@ REQUIRED_REACH = ["xgcm.grid.Grid._get_dims_from_axis", "xgcm.axis.Axis._get_pos
 
 OPS_EDITS = ["unknown-axis", "unknown-axis-added", "data-lacks-dim", "data-two-dims", "to-same", "to-lacking", "to-unknown-word",
              "boundary-unknown-scalar", "boundary-unknown-operated", "boundary-unknown-other", "fill-nonnumeric-scalar", "fill-nonnumeric-mapping",
-             "fill-object"]
+             "fill-object", "default-shift-unknown-word"]
 UFUNC_EDITS = ["misplaced-input", "extra-input", "missing-input", "axis-entries-extra", "axis-entries-missing", "axis-arity", "unknown-axis",
                "boundary-unknown-scalar", "position-lacking", "signature-unknown-position-word", "signature-unknown-position-word",
-               "other-component-count"]
+               "other-component-count", "input-two-dims", "input-two-dims"]
 TRANSFORM_EDITS = ["periodic-axis", "nonmonotonic-bins", "repeated-bins", "no-outer", "unknown-axis"]
 METRIC_EDITS = ["unknown-axis", "data-lacks-dim", "data-two-dims", "data-two-dims", "no-metric"]
 
@@ -161,6 +161,27 @@ def run_ops(ctx, desc, cumsum):
         w = to_eff[a]
         t = ["middle", "centre", "Center", "lef", "", w[:2] + " " + w[2:], " " + w, w + " "][pick % 8]
         kw2["to"] = t if len(opax) == 1 else {x: (t if x == a else to_eff[x]) for x in opax}
+    elif edit == "default-shift-unknown-word":
+        # the unknown position word comes in through the Grid's default_shifts and the call leaves `to` out; refusing at
+        # construction is as good as refusing the call
+        w = to_eff[a]
+        t = ["middle", "centre", w[:2] + " " + w[2:], " " + w, w + " ", "Center"][pick % 6]
+        kw2.pop("to", None)
+        if len(opax) > 1:
+            kw2["to"] = {x: to_eff[x] for x in opax if x != a}
+            if not kw2["to"]:
+                kw2.pop("to")
+        b2 = copy.deepcopy(base)
+        b2["ctor"]["default_shifts"] = {a: {frm: t}}
+
+        def shifted_call():
+            g2 = (c09.build(b2) if cumsum else c01.make_grid(b2))[1]
+            return getattr(g2, op)(da2, axis2, **kw2)
+
+        res = call_outcome(shifted_call)
+        judge(ctx, desc, ("cumsum" if cumsum else "ops", edit, True, op, len(opax)), res,
+              f"{op}(axis={axis2}, {kw2}) on a Grid with default_shifts={{{a!r}: {{{frm!r}: {t!r}}}}} [{edit}]", edit, True)
+        return
     elif edit == "boundary-unknown-scalar":
         kw2["boundary"] = ["bogus", "wrap", "Fill", "constant", "edge"][pick % 5]
         consulted = any(needs_pad(x) for x in opax)
@@ -246,6 +267,15 @@ def run_ufunc(ctx, desc):
         alts = [p for p in cm[bind[d0]] if p != p0]
         dims2 = [cm[bind[d0]][alts[pick % len(alts)]] if d == cm[bind[d0]][p0] else d for d in b["args"][k]]
         args2[k] = xr.DataArray(np.zeros([ds.sizes[d] for d in dims2]), dims=dims2)
+    elif edit == "input-two-dims":
+        # one input carries a second dimension of an axis the signature names for it (another position of that axis)
+        d0, p0 = ins[k][pick % len(ins[k])]
+        alts = [p for p in cm[bind[d0]] if p != p0 and ds.sizes[cm[bind[d0]][p]] > 0 and cm[bind[d0]][p] not in b["args"][k]]
+        if not alts:
+            return
+        d2 = cm[bind[d0]][alts[pick % len(alts)]]
+        args2[k] = args[k].expand_dims({d2: ds.sizes[d2]})
+        consulted = any(max(w) > 0 for w in bw.values())
     elif edit == "extra-input":
         args2.append(args[k])
     elif edit == "missing-input":
@@ -324,6 +354,11 @@ def run_transform(ctx, desc):
     elif edit == "repeated-bins":
         method = "conservative"
         target = np.array([[1.0, 2.5, 2.5, 7.0], [1.0, 1.0, 2.0, 3.0], [7.0, 4.0, 4.0, 1.0]][desc["pick"] % 3])
+    bins_dtype = "float64"
+    if edit in ("nonmonotonic-bins", "repeated-bins") and (desc["pick"] // 11) % 3 == 0:
+        # bins handed over as whole numbers of an integer type (also unsigned: index-like bins)
+        bins_dtype = ["int64", "uint8", "uint16", "float32"][(desc["pick"] // 33) % 4]
+        target = np.array({"nonmonotonic-bins": [[1, 4, 2, 7], [4, 1, 2, 0], [1, 2, 7, 3]], "repeated-bins": [[1, 2, 2, 7], [1, 1, 2, 3], [7, 4, 4, 1]]}[edit][desc["pick"] % 3]).astype(bins_dtype)
     axis = "Qx_unknown" if edit == "unknown-axis" else "Z"
     if edit in ("nonmonotonic-bins", "repeated-bins") and "outer" in pos and "z_ou" not in td.dims:
         td = xr.DataArray(np.stack([np.arange(n + 1.0) + 1, np.arange(n + 1.0) * 2 + 1]), dims=["col", "z_ou"], name="dens")
@@ -341,7 +376,7 @@ def run_transform(ctx, desc):
     res = call_outcome(lambda: g.transform(da, axis, tgt, method=method, **td_kw, **opts))
     if res[0] == "return" and hasattr(res[1], "compute"):
         res = call_outcome(lambda: res[1].compute())
-    judge(ctx, desc, ("transform", edit, True, method, as_da, tuple(sorted(opts)), bool(td_kw)), res,
+    judge(ctx, desc, ("transform", edit, True, method, as_da, tuple(sorted(opts)), bool(td_kw), bins_dtype), res,
           f"transform(method={method}, axis={axis}, target={target.tolist()}, options {opts}, target_data {'given' if td_kw else 'omitted'}, grid {kwg}, positions {pos}) [{edit}]", edit, True)
 
 
